@@ -196,6 +196,11 @@ func fromProto(m *proto.Message) (resp.Value, error) {
 // wrap: 0 = the reader as it is, 1 = behind a bufio.Reader with the minimal buffer, 2 = behind a default bufio.Reader
 // (what a caller does who wraps its connection). With deferred, the returned messages are only inspected after the
 // whole stream was parsed: a value must not change when the parser reads on.
+// lenReader is a chunking reader that, like bytes.Reader or strings.Reader, also tells how much is left.
+type lenReader struct{ *scriptedReader }
+
+func (l lenReader) Len() int { return len(l.data) - l.pos }
+
 func parseAll(r *scriptedReader, want []resp.Value, wrap int, deferred bool) (string, string) {
 	var rd io.Reader = r
 	switch wrap {
@@ -203,6 +208,8 @@ func parseAll(r *scriptedReader, want []resp.Value, wrap int, deferred bool) (st
 		rd = bufio.NewReaderSize(r, 16)
 	case 2:
 		rd = bufio.NewReader(r)
+	case 3:
+		rd = lenReader{r}
 	}
 	p := proto.NewParserWithReader(rd)
 	var msgs []*proto.Message
@@ -283,7 +290,7 @@ func runC02(t *testing.T, tape *sim.Tape, tier string) *Outcome {
 		data = append(data, tail.Encode()...)
 		o.stat("wide_arrays", 1)
 	}
-	wrapNames := []string{"", " behind bufio(16)", " behind bufio(4096)"}
+	wrapNames := []string{"", " behind bufio(16)", " behind bufio(4096)", " through a reader that reports Len()"}
 	checkW := func(r *scriptedReader, desc string, wrap int, deferred bool) {
 		o.Evals++
 		sim.Progress.Add(1) // a run with a wide array or a 128 KiB bulk takes seconds under load: every delivery is progress
@@ -310,7 +317,7 @@ func runC02(t *testing.T, tape *sim.Tape, tier string) *Outcome {
 		for c := 1; c < len(data); c++ {
 			check(&scriptedReader{data: data, cuts: []int{c}, piggy: c%2 == 0}, fmt.Sprintf("split@%d", c))
 			// the same split seen through a buffered reader, values inspected only after the stream was parsed
-			checkW(&scriptedReader{data: data, cuts: []int{c}, piggy: c%4 < 2}, fmt.Sprintf("split@%d", c), 1+c%2, true)
+			checkW(&scriptedReader{data: data, cuts: []int{c}, piggy: c%4 < 2}, fmt.Sprintf("split@%d", c), 1+c%3, true)
 		}
 		o.stat("two_way_splits", len(data)-1)
 		check(&scriptedReader{data: data, one: true}, "all-1-byte")
@@ -383,7 +390,7 @@ func runC02(t *testing.T, tape *sim.Tape, tier string) *Outcome {
 		if piggy {
 			o.stat("eof_piggyback", 1)
 		}
-		checkW(&scriptedReader{data: data, cuts: cuts, piggy: piggy}, fmt.Sprintf("cuts%v piggy=%t", cuts, piggy), tape.Draw(3, "wrap"), tape.Draw(2, "deferred") == 1)
+		checkW(&scriptedReader{data: data, cuts: cuts, piggy: piggy}, fmt.Sprintf("cuts%v piggy=%t", cuts, piggy), tape.Draw(4, "wrap"), tape.Draw(2, "deferred") == 1)
 		// the same partition with empty reads ((0, nil): nothing happened) in front of every data read
 		if z := tape.Draw(4, "zeros"); z > 0 {
 			checkW(&scriptedReader{data: data, cuts: cuts, piggy: piggy, zeros: z}, fmt.Sprintf("cuts%v piggy=%t, %d empty reads before each data read", cuts, piggy, z), 0, false)
@@ -412,7 +419,7 @@ func init() {
 	register(&Check{
 		ID: "C02", Bubble: false, Run: runC02,
 		Runs:   map[string]int{"quick": 6000, "thorough": 200000},
-		Rule:   "a case is one (value sequence, read partition) pair: every 2-way split and the all-1-byte delivery of each generated stream <= 4 KiB plus 4 seeded k-way partitions biased to structural offsets; for streams with bulks of 1 KiB..128 KiB every split within [-20,+4] bytes of each power-of-two offset of the payload; every split is also delivered through a bufio.Reader (16-byte and default buffer) in front of the chunking reader with the returned messages inspected only after the whole stream was parsed (a parsed value must not change when the parser reads on), end of stream arriving alone or together with the last bytes; deliveries with 1..3 empty reads (0 bytes, no error) in front of every data read; distinct = distinct (stream, partition) hashes; non-trivial = stream longer than 4 bytes",
+		Rule:   "a case is one (value sequence, read partition) pair: every 2-way split and the all-1-byte delivery of each generated stream <= 4 KiB plus 4 seeded k-way partitions biased to structural offsets; for streams with bulks of 1 KiB..128 KiB every split within [-20,+4] bytes of each power-of-two offset of the payload; every split is also delivered through a bufio.Reader (16-byte and default buffer) or a reader that also reports Len() in front of the chunking reader with the returned messages inspected only after the whole stream was parsed (a parsed value must not change when the parser reads on), end of stream arriving alone or together with the last bytes; deliveries with 1..3 empty reads (0 bytes, no error) in front of every data read; distinct = distinct (stream, partition) hashes; non-trivial = stream longer than 4 bytes",
 		Real:   []string{"redis/proto parser (NewParserWithReader, Next)"},
 		Stub:   []string{"transport: scripted io.Reader deciding read sizes and end-of-stream style"},
 		Assume: []string{"readers never return (0, nil)"},
